@@ -1,4 +1,6 @@
 import Typegen.Order
+import Typegen.SortGen
+import Typegen.Generate
 /-! # C13 — output is a deterministic function of sources and configuration
 
 Every place where the tool iterates a `HashMap`/`HashSet`/directory listing to produce *ordered*
@@ -40,5 +42,22 @@ example : sortNames [cl!"b/z.rs", cl!"a/y.rs", cl!"a.rs", cl!"a/x.rs"] = [cl!"a.
   decide +kernel
 example : zodOrder (fun n => if n = cl!"A" then [cl!"C", cl!"B"] else []) 5 [cl!"B", cl!"A"] = [cl!"B", cl!"C", cl!"A"] := by
   decide +kernel
+
+
+/-! ## the whole analysis / generation model -/
+
+/-- **C13 on the whole model**: the analysis — commands in output order, events, discovered types, dependency sets —
+    is the same for every order in which the directory walk enumerates the files (paths being unique) -/
+theorem C13_analysis_permutation_invariant (p₁ p₂ : Pj.Project) (hr : p₁.absRoot = p₂.absRoot)
+    (h : p₁.files.Perm p₂.files)
+    (huniq : ∀ f g, f ∈ p₁.files → g ∈ p₁.files → f.relPath = g.relPath → f = g) :
+    An.analyze p₁ = An.analyze p₂ := An.analyze_perm p₁ p₂ hr h huniq
+
+/-- … and so are all four generated files, in both modes, under every configuration -/
+theorem C13_output_permutation_invariant (cfg : Gn.Config) (p₁ p₂ : Pj.Project) (hr : p₁.absRoot = p₂.absRoot)
+    (h : p₁.files.Perm p₂.files)
+    (huniq : ∀ f g, f ∈ p₁.files → g ∈ p₁.files → f.relPath = g.relPath → f = g) :
+    Gn.generate cfg (An.analyze p₁) = Gn.generate cfg (An.analyze p₂) := by
+  rw [An.analyze_perm p₁ p₂ hr h huniq]
 
 end TG.C13
